@@ -3,6 +3,7 @@ package erange
 import (
 	"fmt"
 	"go/types"
+	"math/big"
 
 	"golang.org/x/tools/go/ssa"
 )
@@ -182,6 +183,37 @@ outer:
 	return out
 }
 
+// joinElems joins two element lists.  same == 1 (2) reports that the result
+// is element-wise identical to xs (ys), in which case no list is built.
+func joinElems(xs, ys []Value) (el []Value, same int) {
+	isX, isY := true, true
+	for i := range xs {
+		j := joinValues(xs[i], ys[i])
+		if j != xs[i] {
+			isX = false
+		}
+		if j != ys[i] {
+			isY = false
+		}
+		if el == nil && !isX && !isY {
+			el = make([]Value, len(xs))
+			for k := 0; k < i; k++ {
+				el[k] = joinValues(xs[k], ys[k]) // identity-preserving, hence cheap
+			}
+		}
+		if el != nil {
+			el[i] = j
+		}
+	}
+	switch {
+	case el != nil:
+		return el, 0
+	case isX:
+		return nil, 1
+	}
+	return nil, 2
+}
+
 // joinValues is the least upper bound of two values of the same static type.
 func joinValues(a, b Value) Value {
 	if a == nil {
@@ -196,6 +228,14 @@ func joinValues(a, b Value) Value {
 	switch x := a.(type) {
 	case *Int:
 		if y, ok := b.(*Int); ok {
+			// keep the identity of an operand that already is the join
+			// (big aggregates are joined often and rarely change)
+			if y.Itv.Leq(x.Itv) && len(y.Org) == 0 && (x.Tag == nil || (y.Tag != nil && *x.Tag == *y.Tag)) {
+				return x
+			}
+			if x.Itv.Leq(y.Itv) && len(x.Org) == 0 && (y.Tag == nil || (x.Tag != nil && *x.Tag == *y.Tag)) {
+				return y
+			}
 			r := &Int{Itv: x.Itv.Join(y.Itv), Org: joinOrg(x.Org, y.Org)}
 			if x.Tag != nil && y.Tag != nil && *x.Tag == *y.Tag {
 				r.Tag = x.Tag
@@ -204,19 +244,23 @@ func joinValues(a, b Value) Value {
 		}
 	case *Agg:
 		if y, ok := b.(*Agg); ok && len(x.Elems) == len(y.Elems) {
-			el := make([]Value, len(x.Elems))
-			for i := range el {
-				el[i] = joinValues(x.Elems[i], y.Elems[i])
+			if el, same := joinElems(x.Elems, y.Elems); same == 1 {
+				return x
+			} else if same == 2 {
+				return y
+			} else {
+				return &Agg{el}
 			}
-			return &Agg{el}
 		}
 	case *Tuple:
 		if y, ok := b.(*Tuple); ok && len(x.Elems) == len(y.Elems) {
-			el := make([]Value, len(x.Elems))
-			for i := range el {
-				el[i] = joinValues(x.Elems[i], y.Elems[i])
+			if el, same := joinElems(x.Elems, y.Elems); same == 1 {
+				return x
+			} else if same == 2 {
+				return y
+			} else {
+				return &Tuple{el}
 			}
-			return &Tuple{el}
 		}
 	case *Ptr:
 		if y, ok := b.(*Ptr); ok {
@@ -337,22 +381,41 @@ func leqValue(a, b Value) bool {
 	return false
 }
 
+// saturated is the interval beyond which widening does not grow.
+var saturated = Itv{new(big.Int).Neg(pow2(200)), pow2(200)}
+
 // widenValue returns b widened against the previous iterate a: an interval
 // end that moved is pushed to the corresponding end of lim (the type range is
 // not known here, so the caller passes a generous limit).
 func widenValue(a, b Value, lim Itv) Value {
+	if a == b {
+		return b
+	}
 	switch y := b.(type) {
 	case *Int:
 		x, ok := a.(*Int)
 		if !ok {
 			return b
 		}
+		// An end that moved jumps to the limit; beyond the limit it
+		// saturates.  A saturated interval contains the whole range of every
+		// integer type, so it still describes any machine word (the
+		// mathematical value of a wrapped word only matters modulo 2^w).
 		lo, hi := x.Itv.Lo, x.Itv.Hi
 		if y.Itv.Lo.Cmp(lo) < 0 {
-			lo = minBig(lim.Lo, y.Itv.Lo)
+			lo = lim.Lo
+			if y.Itv.Lo.Cmp(lim.Lo) < 0 {
+				lo = saturated.Lo
+			}
 		}
 		if y.Itv.Hi.Cmp(hi) > 0 {
-			hi = maxBig(lim.Hi, y.Itv.Hi)
+			hi = lim.Hi
+			if y.Itv.Hi.Cmp(lim.Hi) > 0 {
+				hi = saturated.Hi
+			}
+		}
+		if lo == y.Itv.Lo && hi == y.Itv.Hi || (lo.Cmp(y.Itv.Lo) == 0 && hi.Cmp(y.Itv.Hi) == 0) {
+			return y
 		}
 		return &Int{Itv: Itv{lo, hi}, Org: joinOrg(x.Org, y.Org)}
 	case *Agg:
@@ -360,11 +423,51 @@ func widenValue(a, b Value, lim Itv) Value {
 		if !ok || len(x.Elems) != len(y.Elems) {
 			return joinValues(a, b)
 		}
+		if x == y {
+			return y
+		}
+		var el []Value
+		for i := range y.Elems {
+			w := widenValue(x.Elems[i], y.Elems[i], lim)
+			if el == nil && w != y.Elems[i] {
+				el = append([]Value(nil), y.Elems...)
+			}
+			if el != nil {
+				el[i] = w
+			}
+		}
+		if el == nil {
+			return y
+		}
+		return &Agg{el}
+	case *Tuple:
+		x, ok := a.(*Tuple)
+		if !ok || len(x.Elems) != len(y.Elems) {
+			return joinValues(a, b)
+		}
 		el := make([]Value, len(y.Elems))
 		for i := range el {
 			el[i] = widenValue(x.Elems[i], y.Elems[i], lim)
 		}
-		return &Agg{el}
+		return &Tuple{el}
+	case *Slice:
+		x, ok := a.(*Slice)
+		if !ok {
+			return joinValues(a, b)
+		}
+		j, ok := joinValues(a, b).(*Slice)
+		if !ok {
+			return joinValues(a, b)
+		}
+		any := Itv{bigZero, pow2m1(62)}
+		r := &Slice{Arr: j.Arr, Off: j.Off, Len: j.Len, Sum: j.Sum}
+		if !j.Off.Eq(x.Off) {
+			r.Off = any.Join(j.Off)
+		}
+		if !j.Len.Eq(x.Len) {
+			r.Len = any.Join(j.Len)
+		}
+		return r
 	}
 	return joinValues(a, b)
 }
